@@ -3,7 +3,7 @@
    (first occurrence only, and only ids of floating inscriptions of the transaction: inscriptions held by
    its inputs or revealed by it), link_parents = the loop over parents in update_inscription_location
    (SEQUENCE_NUMBER_TO_CHILDREN, the two collection tables, InscriptionEntry.parents). *)
-From OrdV Require Import Base.Prelude Generated Index.Inscr Proofs.Inscr_tables Proofs.Inscr_proofs Proofs.Inscr_c07 Proofs.Inscr_c07b.
+From OrdV Require Import Base.Prelude Generated Index.Inscr Proofs.Inscr_tables Proofs.Inscr_proofs Proofs.Inscr_c07 Proofs.Inscr_c07b Proofs.Inscr_c07c.
 
 (* For every chain (no validity assumption at all) and every configuration, whenever indexing succeeds: *)
 Theorem C07_tables : forall cfg c st,
@@ -62,6 +62,24 @@ Theorem C07_only_kept_parents_recorded : forall h rg f sp o b b',
      exists id, In id (parents_of f) /\ tget pair_eqb id (s_id2seq (b_st b)) = Some p).
 Proof. intros h rg f sp o b b' HQ HN H. exact (proj2 (step_q7 _ _ _ _ _ _ _ HQ HN H)). Qed.
 
+(* The chain-level statement of "recorded as a child only if the parent was among the inscriptions spent or
+   revealed by the child's reveal transaction".  [chain_log cfg 0 c empty_state] is a ghost log: it pairs every
+   transaction of the chain with the indexer state right before that transaction was indexed (txs_log /
+   block_log / chain_log re-run the model; they are only used to STATE the theorem).
+   [RevBy t b0 pid]: pid is an id of t itself (t reveals it), or, in the state b0 right before t, an output that
+   t spends lists an inscription whose entry has id pid (t spends it).
+   For EVERY chain (no validity assumption), whenever indexing succeeds: each recorded pair (parent, child) goes
+   back to a transaction t of the chain that revealed the child (the child's id carries t's txid) and revealed
+   or spent the parent. *)
+Theorem C07_provenance_history : forall cfg c st,
+  index_chain cfg 0 c empty_state = Ok st ->
+  forall p ch, In (p, ch) (s_children st) ->
+    exists t b0 ec ep,
+      In (t, b0) (chain_log cfg 0 c empty_state) /\ (exists blk, In blk c /\ In t blk) /\
+      tget N.eqb ch (s_entries st) = Some ec /\ fst (i_id ec) = t_id t /\
+      tget N.eqb p (s_entries st) = Some ep /\ RevBy t b0 (i_id ep).
+Proof. exact provenance_history. Qed.
+
 (* Non-vacuity: block 2 reveals inscription 0; block 3 spends it and reveals a child naming it (and naming an
    unrelated id, which is dropped). *)
 Definition c07_env (ps : list iid) : envelope := mkEnv 0 0 false false false false false false None false ps.
@@ -81,3 +99,4 @@ Print Assumptions C07_tables.
 Print Assumptions C07_parents_are_floating.
 Print Assumptions C07_only_kept_parents_recorded.
 Print Assumptions C07_parents_spent_or_revealed.
+Print Assumptions C07_provenance_history.
